@@ -79,8 +79,14 @@ def sky2pix(h, ra, dec):
     phi = np.pi + np.arctan2(s, c)
     g = np.arctan2(np.hypot(s, c), st)
     R = _R_of_colat(proj, g)
-    x = np.degrees(R * np.sin(phi))
-    y = np.degrees(-R * np.cos(phi))
+    xr = R * np.sin(phi)
+    yr = -R * np.cos(phi)
+    if proj == "SIN" and ("PV2_1" in h or "PV2_2" in h):
+        # slant orthographic (Paper II eq. 43, 44): x = cos(theta) sin(phi) + xi (1 - sin theta), y = -cos(theta) cos(phi) + eta (1 - sin theta)
+        xr = xr + float(h.get("PV2_1", 0.0)) * (1 - st)
+        yr = yr + float(h.get("PV2_2", 0.0)) * (1 - st)
+    x = np.degrees(xr)
+    y = np.degrees(yr)
     return x / d1 + c1, y / d2 + c2
 
 
